@@ -23,4 +23,4 @@ Extraction "../build/ocaml/model.ml"
   (* Frame *) frame_check may_change sharing
   (* Bandit *) sel_run rr_run ducb_choose ducb_run dscore
   (* Collect *) ppo_run a2c_run
-  (* Persist *) rb_crash lap_crash sb_crash sbp_crash mtl_crash mtu_crash orbax_restore orbax_reload load_pickle save_pickle restore_checkpoint restore_untargeted.
+  (* Persist *) rb_crash lap_crash sb_crash sbp_crash mtl_crash mtu_crash orbax_restore orbax_reload load_pickle save_pickle restore_checkpoint restore_untargeted ck_restore_all name_step_epoch name_step_only ck_saved.
